@@ -854,7 +854,7 @@ def preprocess_timed_token_sequences(
                         if token[0] in token_dictionary
                     ],
                     dtype=np.float64,
-                )
+                ).reshape(-1, 2)
             )
     else:
         result_sequences = List()
@@ -871,7 +871,7 @@ def preprocess_timed_token_sequences(
                         for token in sequence
                     ],
                     dtype=np.float64,
-                )
+                ).reshape(-1, 2)
             )
         token_dictionary[masking] = len(token_dictionary)
 
